@@ -448,7 +448,12 @@ fn c09_seq_text(seq: &[usize], consts_mask: u32) -> String {
     let mut s = String::from("package t; interface I { ");
     for (i, e) in seq.iter().enumerate() {
         if consts_mask & (1 << i) != 0 {
-            s.push_str(&format!("const int K{i} = {}; ", i % 3 + 1));
+            // constants never take part - even when they carry the name of a method (bit 8+i of the mask)
+            if consts_mask & (1 << (8 + i)) != 0 {
+                s.push_str(&format!("const int {} = {}; ", names[(i + seq.len()) % 3], i % 3 + 1));
+            } else {
+                s.push_str(&format!("const int K{i} = {}; ", i % 3 + 1));
+            }
         }
         let (n, c) = (e % 3, e / 3);
         s.push_str(&format!("void {}(){}; ", names[n], if c == 0 { String::new() } else { format!(" = {c}") }));
@@ -488,7 +493,7 @@ pub fn run_c09(ctx: &Ctx) -> i32 {
     }
     stats.merge(par_cases(ctx, "sequences", total, Duration::from_secs(ctx.tier.pick(120, 1500)), |i, rng, st| {
         if let Some(seq) = c09_decode(i, max_len) {
-            let mask = if rng.chance(1, 3) { rng.below(64) as u32 } else { 0 };
+            let mask = if rng.chance(1, 3) { rng.below(1 << 14) as u32 } else { 0 };
             let text = c09_seq_text(&seq, mask);
             st.inc(&format!("sequence_length.{}", seq.len()));
             judge(Which::C09, "sequences", i, &[("main".to_string(), text)], st, "seq");
@@ -503,7 +508,12 @@ pub fn run_c09(ctx: &Ctx) -> i32 {
         let mut s = String::from("package t; interface I { ");
         for k in 0..n {
             if rng.chance(1, 6) {
-                s.push_str(&format!("const int K{k} = 1; "));
+                if rng.chance(1, 2) {
+                    s.push_str(&format!("const int K{k} = 1; "));
+                } else {
+                    // a constant named like a method
+                    s.push_str(&format!("const int {} = 1; ", if rng.chance(1, 2) { format!("m{}", rng.below(n)) } else { rng.pick_str(&names).to_string() }));
+                }
             }
             let name = if rng.chance(1, 2) { format!("m{k}") } else { rng.pick_str(&names).to_string() };
             let code = match style {
